@@ -49,6 +49,15 @@ type (
 
 type bridgeStruct struct{ A int }
 
+// concrete types that implement error: a struct with a value receiver, a pointer type
+type bridgeErrVal struct{ Code int }
+
+func (e bridgeErrVal) Error() string { return "probe error (struct value)" }
+
+type bridgeErrPtr struct{ Code int }
+
+func (e *bridgeErrPtr) Error() string { return "probe error (pointer)" }
+
 var bridgeErrType = reflect.TypeOf((*error)(nil)).Elem()
 
 var bridgeTypes = map[string]reflect.Type{
@@ -67,6 +76,7 @@ var bridgeTypes = map[string]reflect.Type{
 	"chan": reflect.TypeOf((chan int)(nil)), "errorp": bridgeErrType,
 	"error": bridgeErrType, "chanerr": reflect.TypeOf((chan error)(nil)),
 	"rchanerr": reflect.TypeOf((<-chan error)(nil)), "chanint": reflect.TypeOf((chan int)(nil)),
+	"errval": reflect.TypeOf(bridgeErrVal{}), "errptr": reflect.TypeOf(&bridgeErrPtr{}),
 }
 
 // tokens in the order used by the random generator
@@ -360,6 +370,14 @@ func buildProbe(row *bridgeRow, rnd *rand.Rand) (any, *bridgeProbeLog, bridgeVal
 			} else {
 				outs[i] = reflect.Zero(t)
 			}
+		case r == "errval":
+			outs[i] = reflect.ValueOf(bridgeErrVal{Code: 7})
+		case r == "errptr":
+			if row.Ret == "err" {
+				outs[i] = reflect.ValueOf(&bridgeErrPtr{Code: 7})
+			} else {
+				outs[i] = reflect.Zero(t)
+			}
 		case r == "chanerr" || r == "rchanerr":
 			outs[i] = reflect.Zero(t) // replaced per call below
 		case i == 0 && bridgeClass(r) != "X":
@@ -432,7 +450,7 @@ func bridgeParamAt(s bridgeSig, i int) string {
 func bridgeConcretise(row *bridgeRow, rnd *rand.Rand) (sent []bridgeVal) {
 	s := row.S
 	valueShape := s.API == "func" && len(s.Results) >= 1 && bridgeClass(s.Results[0]) != "X" &&
-		(len(s.Results) == 1 || (len(s.Results) == 2 && s.Results[1] == "error"))
+		(len(s.Results) == 1 || (len(s.Results) == 2 && (s.Results[1] == "error" || s.Results[1] == "errval" || s.Results[1] == "errptr")))
 	if row.Site == "" {
 		switch {
 		case s.API == "cmd":
